@@ -352,7 +352,8 @@ def lax_cond(pred, true_fun, false_fun, *operands, operand=None, **kw):
   cur().axioms_used.add("lax.cond(p,f,g) = f() if p else g(); both branches are traced")
   rt = true_fun(*operands)
   rf = false_fun(*operands)
-  return _select_tree(p, rt, rf, "cond")
+  arr = lambda l: l if isinstance(l, Tensor) or l is None or not isinstance(l, (int, float, bool, sym.Sym)) else T.asarray(l)
+  return _select_tree(p, pytree.tree_map(arr, rt), pytree.tree_map(arr, rf), "cond")
 
 
 def _takes_arg(fn):
@@ -374,6 +375,8 @@ def lax_while_loop(cond_fun, body_fun, init_val):
   it = getattr(body_fun, "interp", None)
   if it is not None:
     lc = it.loop_contracts.get(("lax.while_loop", q))
+  # lax.while_loop turns every leaf of the carry into an array
+  init_val = pytree.tree_map(lambda l: l if isinstance(l, Tensor) or l is None or not isinstance(l, (int, float, bool, sym.Sym)) else T.asarray(l), init_val)
   if lc is None:
     state = init_val
     n = 0
